@@ -109,6 +109,9 @@ def line_removed(before, after):
         and b'\n' not in before[:m]
 
 
+def is_callable(v): return callable(v)
+
+
 def is_hashable(v):
     try:
         hash(v)
